@@ -12,6 +12,7 @@ Projection (trusted glue, DESIGN 2.2): implementation values -> spec values
 import inspect
 import json
 import os
+import re
 
 from . import common, tlc
 from .common import MachineryFailure
@@ -237,6 +238,8 @@ def judge(records, tables_path, shards=16, heap="512m", timeout=3000):
         )
     results = tlc.run_many(jobs)
     verdicts = {}
+    learnt = {}
+    conflicts = []
     for res in results:
         if res.invariant:
             raise MachineryFailure(f"DecodeJudge: invariant {res.invariant} violated\n" + "\n".join(res.out.splitlines()[-60:]))
@@ -244,6 +247,14 @@ def judge(records, tables_path, shards=16, heap="512m", timeout=3000):
             raise MachineryFailure("DecodeJudge TLC failure: " + str(res.error) + "\n" + "\n".join(res.out.splitlines()[-40:]))
         for t in res.tuples("VERDICT"):
             verdicts[t[1]] = (t[2], t[3], t[4], t[5])
+        # labels learnt per shard: merge, report cross-shard disagreement (C16 consistency)
+        for m in re.finditer(r'<<\s*"(band|rinex)",\s*(\d+),\s*(\d+)\s*>>\s*:>\s*"([^"]*)"', res.out):
+            key = (m.group(1), int(m.group(2)), int(m.group(3)))
+            if key in learnt and learnt[key] != m.group(4):
+                conflicts.append((key, learnt[key], m.group(4)))
+            learnt.setdefault(key, m.group(4))
+    judge.last_learnt = learnt
+    judge.last_conflicts = conflicts
     missing = [r["rid"] for r in records if r["rid"] not in verdicts]
     if missing:
         raise MachineryFailure(f"DecodeJudge: {len(missing)} records without verdict, e.g. {missing[:5]}")
